@@ -160,6 +160,25 @@ class Recorder(object):
 
 
 REC = Recorder()
+
+
+class _Stream(object):
+    """stands in for sys.stdout / sys.stderr during an observed call: every write is an event"""
+    encoding = 'ascii'
+
+    def __init__(self, name):
+        self.name = name
+
+    def write(self, text):
+        if REC.active:
+            REC.events.append((self.name, None))
+        return len(text)
+
+    def flush(self):
+        pass
+
+    def isatty(self):
+        return False
 _STATE = {'hook': False}
 
 
@@ -405,12 +424,16 @@ class Env(object):
         d0 = self.grid_digest(grid)
         REC.events = []
         out, exc, result = 'ok', '', None
+        so, se = sys.stdout, sys.stderr
         try:
+            # writing to the process's standard streams is an effect like any other: logged as an event of the call
+            sys.stdout, sys.stderr = _Stream('stdout.write'), _Stream('stderr.write')
             REC.active = True
             try:
                 result = grid.filter(text)
             finally:
                 REC.active = False
+                sys.stdout, sys.stderr = so, se
         except KeyboardInterrupt:
             raise
         except self.parse_base as e:
